@@ -111,7 +111,7 @@ def generic_runner(P, exe, model_ok, rng, tier, replay=None):
                     if key in mc.O:
                         certs[key] = certs.get(key, 0) + 1
                         if mc.O[key] != [want]:
-                            fails.append(dict(clause=clause, cause="other", witness="scenario %s call %d: %s" % (sid, mc.li, what), scenario_text=text_of[sid]))
+                            fails.append(dict(clause=clause, cause=P.get("cause", lambda s_, f_: "other")(si, (clause, what)), witness="scenario %s call %d: %s" % (sid, mc.li, what), scenario_text=text_of[sid]))
         for tag in P.get("tags", lambda s: [])(si):
             dist[tag] = dist.get(tag, 0) + 1
         if P.get("nontrivial", lambda s: True)(si):
@@ -281,9 +281,10 @@ FLOW_TB = ["Float execution of the model (Lean runtime + libm) assumed IEEE bina
            "order laws of finite binary64 (strict weak order, x < nextUp x) assumed; proved for no concrete float type",
            "topology handed to the flow model is the real grid's neighbour lists (tied to the grid model in C07/C18)"]
 
-register("C01", lean_modules=['FsModel.PFlood', 'FsModel.Descent', 'FsModel.Tilt', 'FsProofs.Properties.C01', 'FsProofs.Properties.C01Multi', 'FsProofs.Properties.C01MstRouter', 'FsProofs.Properties.C01MstConnected', 'FsProofs.Properties.C01MstExample'],
-         theorems=['Fs.C01.C01_pflood_singleRouter', 'Fs.C01.C01_pflood_multiRouter', 'Fs.C01Mst.resolve_c01_singleRouter', 'Fs.C01Mst.resolve_c01_kruskal_sorted', 'Fs.C01Mst.resolve_c01_tree', 'Fs.C01Mst.resolve_c01_connected',
+register("C01", lean_modules=['FsModel.PFlood', 'FsModel.Descent', 'FsModel.Tilt', 'FsProofs.Properties.C01', 'FsProofs.Properties.C01Multi', 'FsProofs.Properties.C01MstRouter', 'FsProofs.Properties.C01MstConnected', 'FsProofs.Properties.C01MstExample', 'FsProofs.Properties.ImplCheck', 'FsProofs.Properties.Closed'],
+         theorems=['Fs.C01.C01_pflood_singleRouter', 'Fs.C01.C01_pflood_multiRouter', 'Fs.ImplCheck.checkFlow_sound', 'Fs.ImplCheck.checkFlow_paths', 'Fs.Closed.raster_C01_pflood_single', 'Fs.Closed.raster_C01_pflood_multi', 'Fs.Closed.raster_C01_mst', 'Fs.C01Mst.resolve_c01_singleRouter', 'Fs.C01Mst.resolve_c01_kruskal_sorted', 'Fs.C01Mst.resolve_c01_tree', 'Fs.C01Mst.resolve_c01_connected',
                    'Fs.C01Mst.routeCarve_spec', 'Fs.C01Mst.routeBasic_spec', 'Fs.C01Mst.rerouted_forest', 'Fs.C01Mst.rerouted_base', 'Fs.C01Mst.orient_spec', 'Fs.C01Mst.orient_reached_iff', 'Fs.C01Mst.kruskal_keeps_virtual', 'Fs.C01.pflood_terminates', 'Fs.pflood_parent', 'Fs.pflood_complete', 'Fs.step_wf', 'Fs.Tilt.tilt_descends'], gen=gen_resolved, oracles=[oracle.c01], cause=oracle.c01_cause,
+         model_certs={"cert_c01": ("1", "reaches_base", "the Lean checker checkFlow (soundness: Fs.ImplCheck.checkFlow_sound / checkFlow_paths) rejects the receivers and elevation REPORTED BY THE IMPLEMENTATION: a terminal node drains, a step is not strictly descending to an unmasked (neighbour) node, or a node connected to a base level is a pit")},
          sections={"elev", "update"} | GRAPH_SECTIONS, nontrivial=raised_or_rerouted, tags=tags_flow,
          rule="random grids (raster 3 connectivities/border mixes, profile, mesh) x elevation families (ties, plateaus, zero, subnormal, huge, nested cones) x masks x base-level sets x six resolver variants [+ multi router]; non-trivial = at least one node was raised by the resolver",
          trusted_base=FLOW_TB)
@@ -303,14 +304,16 @@ register("C05", lean_modules=["FsProofs.Properties.C05"], theorems=["Fs.C05.term
          nontrivial=has_pits_or_multi, tags=tags_flow,
          rule="multi router x exponents {0, .5, 1, 1.1, 2, 8}, exponent changed between updates, flooded fields; non-trivial = some node has several receivers",
          trusted_base=FLOW_TB + ["weights theorem is over an ordered field with an abstract pow satisfying pow 1 = 1, 0 <= pow x"])
-register("C06", lean_modules=['FsModel.Donors', 'FsModel.Dfs', 'FsProofs.DfsPerm', 'FsModel.Bfs', 'FsProofs.Properties.C06', 'FsProofs.Properties.C06Bfs', 'FsProofs.Properties.C06Kahn', 'FsProofs.Properties.C06Graphs'],
-         theorems=['Fs.C06.single_donors_inverse', 'Fs.C06.single_dfs', 'Fs.C06.singleRouter_bfs', 'Fs.C06.multi_donors_inverse', 'Fs.C06.multi_dfs', 'Fs.C06.multi_bfs',
+register("C06", lean_modules=['FsModel.Donors', 'FsModel.Dfs', 'FsProofs.DfsPerm', 'FsModel.Bfs', 'FsProofs.Properties.C06', 'FsProofs.Properties.C06Bfs', 'FsProofs.Properties.C06Kahn', 'FsProofs.Properties.C06Graphs', 'FsProofs.Properties.ImplCheck', 'FsProofs.Properties.Closed'],
+         theorems=['Fs.ImplCheck.checkC06_sound', 'Fs.ImplCheck.checkDfs_iff', 'Fs.ImplCheck.checkBfs_iff', 'Fs.C06.single_donors_inverse', 'Fs.C06.single_dfs', 'Fs.C06.singleRouter_bfs', 'Fs.C06.multi_donors_inverse', 'Fs.C06.multi_dfs', 'Fs.C06.multi_bfs',
                    'Fs.C06.mem_donors', 'Fs.C06.mem_donors_ne', 'Fs.C06.donors_nodup', 'Fs.C06.dfs_perm', 'Fs.C06.dfs_recv_before', 'Fs.C06.single_bfs', 'Fs.C06.bfs_levels_spec', 'Fs.C06.kahn_spec',
                    'Fs.C06.singleRouter_graph', 'Fs.C06.multi_kdag', 'Fs.C06.multi_dag',
                    'Fs.Donors.mem_donors', 'Fs.Donors.donors_nodup', 'Fs.Dfs.dfs_recv_before', 'Fs.Dfs.dfs_perm', 'Fs.Bfs.next_level_receivers'], gen=lambda r, t: gen_any_ops(r, t), oracles=[oracle.c06], sections={"dcount", "donors", "dfs", "bfs", "levels", "rcount", "recv"},
+         model_certs={"cert_c06": ("1", "tables_certificate", "the Lean checker checkC06 (soundness: Fs.ImplCheck.checkC06_sound) rejects the donors / bottom-up order / breadth-first levels REPORTED BY THE IMPLEMENTATION")},
          nontrivial=has_pits_or_multi, tags=tags_flow,
          rule="all operator families incl. spanning-tree re-routing, masks, repeated updates on one object; snapshots' tables checked too", trusted_base=FLOW_TB)
-register("C19", lean_modules=['FsModel.Basins', 'FsProofs.Properties.C19'], theorems=['Fs.C19.basins_spec', 'Fs.C19.run_blocks', 'Fs.Basins.run_block', 'Fs.Basins.block_labels_agree'], gen=lambda r, t: gen_any_ops(r, t, basins=True), oracles=[oracle.c19], sections={"basins", "outlets", "pits"},
+register("C19", lean_modules=['FsModel.Basins', 'FsProofs.Properties.C19', 'FsProofs.Properties.ImplCheck'], theorems=['Fs.C19.basins_spec', 'Fs.ImplCheck.checkBasins_sound', 'Fs.ImplCheck.checkBasins_drain', 'Fs.C19.run_blocks', 'Fs.Basins.run_block', 'Fs.Basins.block_labels_agree'], gen=lambda r, t: gen_any_ops(r, t, basins=True), oracles=[oracle.c19], sections={"basins", "outlets", "pits"},
+         model_certs={"cert_c19": ("1", "basins_certificate", "the Lean checker checkBasins (soundness: Fs.ImplCheck.checkBasins_sound) rejects the labels / outlets / pits REPORTED BY THE IMPLEMENTATION")},
          nontrivial=has_pits_or_multi, tags=tags_flow,
          rule="basins/outlets/pits after every single-direction sequence, masks, carve/basic re-routing, repeated calls", trusted_base=FLOW_TB)
 
